@@ -103,8 +103,8 @@ struct Runner<T, RDims<E...>, Maker, D...> {
                     case 'f': apply_op(w.op, v, *Bf); break;
                     case 'm': ev.run(w.op, v); break;
                     // aliased right-hand sides (C18): slices of A itself
-                    case 'a': apply_op(w.op, v, mkview(*A, w.src, rk)); break;
-                    case 'b': apply_op(w.op, v, mkview(*A, w.src, rk) * c + mkview(*A, w.src2, rk)); break;
+                    case 'a': apply_op(w.op, v, Maker::src(*A, w.src, rk)); break;
+                    case 'b': apply_op(w.op, v, Maker::src(*A, w.src, rk) * c + Maker::src(*A, w.src2, rk)); break;
                     default: std::printf(" | ORACLE=FAIL bad-script\n"); std::fflush(stdout); _exit(0);
                     }
                 }
@@ -162,5 +162,7 @@ struct Runner<T, RDims<E...>, Maker, D...> {
 #define VW(T, RD, DD, SCRIPT) vw::Runner<T, vw::RDims<VW_UNPACK RD>, vw::DynMaker, VW_UNPACK DD>::go(SCRIPT)
 // VWF(T, (E...), (D...), (fseq<..>, fseq<..>), "script")
 #define VWD(T, RD, DD, SCRIPT) vw::Runner<T, vw::RDims<VW_UNPACK RD>, vw::DiagMaker, VW_UNPACK DD>::go(SCRIPT)
+#define VWP(T, RD, DD, SCRIPT) vw::Runner<T, vw::RDims<VW_UNPACK RD>, vw::MapDynMaker, VW_UNPACK DD>::go(SCRIPT)
+#define VWPF(T, RD, DD, FS, SCRIPT) vw::Runner<T, vw::RDims<VW_UNPACK RD>, vw::MapFixMaker<VW_UNPACK FS>, VW_UNPACK DD>::go(SCRIPT)
 #define VWF(T, RD, DD, FS, SCRIPT) vw::Runner<T, vw::RDims<VW_UNPACK RD>, vw::FixMaker<VW_UNPACK FS>, VW_UNPACK DD>::go(SCRIPT)
 
